@@ -5,6 +5,7 @@ import (
 	"sort"
 	"strings"
 	"sync"
+	"verif/internal/sched"
 
 	"verif/internal/core"
 )
@@ -403,6 +404,14 @@ func runC06(env *core.Env) {
 		depth++
 	}
 	validated := conf.run(env)
+	// concurrent requests on one task: the invariant must hold on the final state of every interleaving
+	cf := buildConcFix(env)
+	concCov := concPhase(env, "C06", []sched.Scenario{
+		{Name: "unclaim||set-doing/blocked+claimed", Store: blockedClaimed(env, cf), Procs: []core.Req{core.R("", "--json", "set", cf.T1).In(`{"claim":""}`), core.R("", "--json", "set", cf.T1).In(`{"state":"doing"}`)}},
+		{Name: "claim-id||set-done/todo", Store: cf.SA, Procs: []core.Req{core.R("", "--json", "claim", cf.T2, "--agent", "b"), core.R("", "--json", "set", cf.T2).In(`{"state":"done"}`)}},
+		{Name: "set-todo||set-error/doing", Store: cf.SHeld, Procs: []core.Req{core.R("", "--json", "set", cf.T1).In(`{"state":"todo"}`), core.R("", "--json", "set", cf.T1).In(`{"state":"error"}`)}},
+		{Name: "claim||claim-id/todo", Store: cf.SA, Procs: []core.Req{claimReq("a"), core.R("", "--json", "claim", cf.T1, "--agent", "b")}},
+	}, invC06)
 	var keys []string
 	for _, k := range order {
 		keys = append(keys, k)
@@ -412,6 +421,7 @@ func runC06(env *core.Env) {
 		"samples": samples.list, "exhaustive": exhaustive, "bfs_depth_to_fixpoint": depth,
 		"abstract_states": keys, "request_shapes": len(shapes), "accepted": accepted, "rejected": rejected,
 		"distinct_outcome_classes": outcomes.len(), "unconfirmed_candidates": unconfirmed.Load(),
+		"concurrent":  concCov,
 		"explanation": "BFS to fixpoint over (state, claimant) of one task under every request shape (state x claim x --agent x input mode x command), each transition = one real command through the in-process server; oracle = literal transition table + claim rule; plus every shape against an epic",
 	}
 	env.Finish("model_checking", cov, []string{
@@ -464,4 +474,11 @@ func clipS(s string, n int) string {
 		return s[:n] + "…"
 	}
 	return s
+}
+
+// blockedClaimed: T1 blocked and claimed by "holder" (so that unclaim and ->doing race on a legal pre-state).
+func blockedClaimed(env *core.Env, cf *concFix) core.Store {
+	fx := FixFrom(env, env.W0(), cf.SHeld, 200)
+	fx.Set(cf.T1, map[string]interface{}{"state": "blocked"})
+	return fx.Store()
 }
